@@ -12,6 +12,10 @@ for p in sorted(glob.glob(root + "/**/*.py", recursive=True)):
     if rel.startswith("tests"):
         continue
     trees[rel] = ast.parse(open(p).read())
+    # the same in-place normalisations the loader applies before it canonicalises the locals (sa/repo.py ModuleInfo)
+    from sa.repo import inline_stable_aliases, lower_conditional_statements
+    inline_stable_aliases(trees[rel])
+    lower_conditional_statements(trees[rel])
     canonical_comparisons(trees[rel])
 table = build_table(trees)
 json.dump(table, open(DATA, "w"), indent=0, sort_keys=True)
